@@ -398,6 +398,9 @@ class TraitList(list):
             The object to insert.
         """
 
+        # Like list.insert, accept anything that implements __index__.
+        index = operator.index(index)
+
         # For insert, *any* index is valid!
         if index < 0:
             normalized_index = max(index + len(self), 0)
@@ -426,6 +429,9 @@ class TraitList(list):
         IndexError
             If list is empty or index is out of range.
         """
+
+        # Like list.pop, accept anything that implements __index__.
+        index = operator.index(index)
 
         # We don't need to worry about indices < -len(self) or >= len(self):
         # for those, the pop call will raise anyway.
